@@ -2,6 +2,7 @@
 from __future__ import annotations
 
 from verif.common import Ctx, Ob, Outcome, Witness
+from props import framesobs
 from verif.frames.analysis import _deterministic_repr, package
 
 PROPERTY = "C06"
@@ -316,6 +317,7 @@ def obligations(ctx: Ctx):
         Ob(f"{P}.F4", "F", "every class that can reach a string has a deterministic repr", ["octave_mcp/* classes"], ob_repr),
         Ob(f"{P}.F5", "F", "execute bodies: no await, no store to self", [e for e in ENTRY if e.endswith(".execute")], ob_execute),
         Ob(f"{P}.F6", "F", "no mutable default arguments", ["octave_mcp/*"], ob_mutable_defaults),
+        Ob(f"{P}.F7", "F", "every memoised function is keyed by arguments whose equality implies they are indistinguishable (no answer depends on which equal-but-distinct argument the process saw first)", ENTRY, framesobs.ob_memo_keys(ENTRY)),
         Ob(f"{P}.L1", "L", "frames ∧ A-cpython-det ⇒ results are a function of the arguments", [], ob_lemma),
         Ob(f"{P}.B1", "B", "battery of real calls compared across processes, seeds, cwd, locale, process age, asyncio scheduling", ENTRY, ob_battery, timeout=1200),
     ]
